@@ -419,6 +419,9 @@ pub fn run(ctx: &Ctx) {
     ctx.listed("huge_messages", "messages of 2^16-1, 2^16, 2^16+3, 100000 bytes (thorough: up to 2^20+5) with r injected: exact ciphertext, independent decryption, round trip (size thresholds, chunked or parallel paths)", move || {
         huge.iter().map(|l| Base { ke: gen::hex32(&BigUint::from(0x1234_5679u64)), ke_rel: 0, id_len: 5, id_seed: seed ^ *l as u64, msg_len: *l, msg_seed: seed.wrapping_mul(19) ^ *l as u64, r: Hex(expand_bytes(seed ^ 0x1011 ^ *l as u64, 32)) }).collect::<Vec<_>>()
     }, check_encrypt);
+    ctx.listed("long_identities", "recipient identities of 122..129, 250..257, 1000, 4096, 8191, 8192, 65535, 65536, 70000 bytes with r injected: exact ciphertext, independent decryption, round trip (an identity is a byte string of any length)", move || {
+        [122usize, 123, 127, 128, 129, 250, 251, 255, 256, 257, 1000, 4096, 8191, 8192, 65535, 65536, 70_000].iter().enumerate().map(|(i, l)| Base { ke: gen::hex32(&BigUint::from(0x1234_567au64)), ke_rel: ((i % 5) as u8) << 4, id_len: *l, id_seed: seed ^ (0x1d00 + i as u64), msg_len: 20 + i, msg_seed: seed.wrapping_mul(23) ^ i as u64, r: Hex(expand_bytes(seed ^ 0x1012 ^ i as u64, 32)) }).collect::<Vec<_>>()
+    }, check_encrypt);
     let nrel = ctx.tier.pick(6u64, 40u64);
     ctx.listed("master_key_related_to_h1", "master keys crafted from the identity: ke = H1(ID||03) (Q_B becomes a doubling), ke = 2*H1, ke = H1 - 1: exact ciphertext and round trip; reference ciphertext decrypts", move || {
         let mut v = Vec::new();
